@@ -140,3 +140,129 @@ def rule_I1(ctx, prog, label, rule='I1'):
     if rr.instances < 2:
         raise AnalysisBroken('I1: expected a tainted row and column index, found %d' % rr.instances)
     return rr
+
+
+def rule_I3(ctx, prog, label, rule='I3'):
+    """Readers: once a reject site was passed (a conditional `goto` to the cleanup ladder, or the error branch of
+    setjmp), the function cannot return a non-NULL matrix.  Path-sensitive over (result variable: NULL / maybe set,
+    error flag: 0 / non-zero / unknown, rejected: yes/no)."""
+    from .cfg import forward, Edges
+    rr = RuleResult(rule, 'readers: every reject path returns NULL (no partially filled matrix after an error)')
+    for name in ('mzd_from_png', 'mzd_from_jcf'):
+        f = prog.func(name)
+        g = cfg_of(f)
+        fs = FuncSym(f)
+        # result variable: the local returned by `return X`
+        rets = [r for r in f.body.find('ReturnStmt') if r.kids and strip(r.kids[0], casts=True).kind == 'DeclRefExpr']
+        if not rets:
+            raise AnalysisBroken('I3: %s returns no variable' % name)
+        res = strip(rets[0].kids[0], casts=True)
+        rid = res.refid
+        assigned_somewhere = any(n.kind == 'BinaryOperator' and n.op == '=' and strip(n.kids[0]).kind == 'DeclRefExpr' and strip(n.kids[0]).refid == rid
+                                 and strip(n.kids[1], casts=True).kind == 'CallExpr' for n in f.body.walk())
+        flag_ids = set()
+        for n in f.body.walk():
+            if n.kind == 'VarDecl' and (n.type or '') == 'int' and n.kids and int_value(n.kids[-1]) == 0 and n.name.startswith('ret'):
+                flag_ids.add(n.id)
+        # state: frozenset of (A, flag, rejected) tuples
+        init = frozenset([('NULL', 0, False)])
+
+        def refine_ret(cond, truth, st):
+            """prune/refine on  `flag != 0 && A`  style conditions"""
+            A, fl, rj = st
+            c = strip(cond, casts=True)
+            conj = []
+            def flat(x):
+                x = strip(x, casts=True)
+                if x.kind == 'BinaryOperator' and x.op == '&&':
+                    flat(x.kids[0]); flat(x.kids[1])
+                else:
+                    conj.append(x)
+            flat(c)
+            facts = []
+            for x in conj:
+                if x.kind == 'BinaryOperator' and x.op in ('!=', '==') and strip(x.kids[0], casts=True).kind == 'DeclRefExpr' and strip(x.kids[0], casts=True).refid in flag_ids and int_value(x.kids[1]) == 0:
+                    facts.append(('flag', x.op == '!='))
+                elif x.kind == 'DeclRefExpr' and x.refid == rid:
+                    facts.append(('A', True))
+                else:
+                    facts.append(('?', None))
+            if not any(k != '?' for k, _ in facts):
+                return st
+            # evaluate truth of each fact under st
+            vals = []
+            for k, want in facts:
+                if k == 'flag':
+                    vals.append(None if fl == '?' else ((fl != 0) == want))
+                elif k == 'A':
+                    vals.append(False if A == 'NULL' else None)
+                else:
+                    vals.append(None)
+            if truth:
+                if any(v is False for v in vals):
+                    return None
+                nfl = fl
+                for (k, want), v in zip(facts, vals):
+                    if k == 'flag' and fl == '?':
+                        nfl = 'NZ' if want else 0
+                return ('SET' if any(k == 'A' for k, _ in facts) else A, nfl, rj)
+            else:
+                if all(v is True for v in vals):
+                    return None
+                return st
+
+        def transfer(node, states):
+            if node.kind in ('entry', 'label', 'exit'):
+                return states
+            if node.kind == 'noreturn':
+                return frozenset()
+            if node.kind == 'branch':
+                t, fset = set(), set()
+                is_setjmp = any(callee_name(c) in ('setjmp', '_setjmp', '__sigsetjmp') for c in node.ast.find('CallExpr'))
+                for st in states:
+                    for truth, acc in ((True, t), (False, fset)):
+                        s2 = refine_ret(node.ast, truth, st)
+                        if s2 is None:
+                            continue
+                        if is_setjmp and truth:
+                            # the error return of setjmp can happen after any later statement
+                            s2 = ('SET' if assigned_somewhere else s2[0], s2[1], True)
+                        acc.add(s2)
+                return Edges({True: frozenset(t), False: frozenset(fset)})
+            out = set()
+            s = node.ast
+            for (A, fl, rj) in states:
+                if s.kind == 'GotoStmt':
+                    # a goto inside an if-block is a reject site
+                    if fs.enclosing(s, ('IfStmt',)) is not None:
+                        rj = True
+                    out.add((A, fl, rj))
+                    continue
+                for n in s.walk():
+                    if n.kind == 'BinaryOperator' and n.op == '=':
+                        l = strip(n.kids[0])
+                        if l.kind == 'DeclRefExpr' and l.refid == rid:
+                            A = 'NULL' if int_value(n.kids[1]) == 0 else 'SET'
+                        if l.kind == 'DeclRefExpr' and l.refid in flag_ids:
+                            v = int_value(n.kids[1])
+                            fl = ('?' if v is None else (0 if v == 0 else 'NZ'))
+                out.add((A, fl, rj))
+            return frozenset(out)
+        IN = forward(g, init, transfer, lambda a, b: a | b)
+        nrej = 0
+        for cn in g.nodes:
+            if cn.kind == 'stmt' and cn.ast.kind == 'ReturnStmt' and cn.id in IN:
+                rv = strip(cn.ast.kids[0], casts=True) if cn.ast.kids else None
+                if rv is None or rv.kind != 'DeclRefExpr' or rv.refid != rid:
+                    continue
+                for (A, fl, rj) in IN[cn.id]:
+                    if rj:
+                        nrej += 1
+                        rr.instances += 1
+                        rr.ob(A == 'NULL', dict(function=name, state=dict(result=A, error_flag=fl), verdict='reject path returns NULL'),
+                              Finding(rule, '%s|%s|reject-returns-matrix' % (rule, name), cn.ast.loc, name,
+                                      'a reject path of %s (error flag %s) can reach `%s` with a matrix that was already created: a damaged file yields a partially filled matrix instead of NULL' % (name, fl, pp(cn.ast)), {}, label))
+        if nrej == 0:
+            rr.instances += 1
+            rr.ob(True, dict(function=name, verdict='no reject path reaches a variable return'))
+    return rr
